@@ -3,16 +3,17 @@
 package sqlite
 
 // C13 — renewal hands the data over to the successor contract.
-// Directed cases 0..4, then generated renewal chains (see props/C13.json "rule").
+// Directed cases 0..5, then generated renewal chains (see props/C13.json "rule").
 
 import (
 	"fmt"
 	"testing"
 
 	"go.sia.tech/core/types"
+	"go.sia.tech/hostd/v2/host/contracts"
 )
 
-const vrC13Directed = 5
+const vrC13Directed = 6
 
 func TestVerifC13(t *testing.T) {
 	em := newVerifEmitter(t, vrCoqHeader, "case", "check")
@@ -40,6 +41,9 @@ func TestVerifC13(t *testing.T) {
 		case 4:
 			em.BeginCase(id, "directed: every malformed renewal variant leaves the predecessor usable")
 			w.c13Malformed()
+		case 5:
+			em.BeginCase(id, "directed: an updater opened before the renewal is committed after it")
+			w.c13StaleUpdater()
 		default:
 			em.BeginCase(id, "generated renewal chains")
 			w.c13Generated()
@@ -167,6 +171,42 @@ func (w *vrWorld) c13ChainV1() {
 		if w.supers[id] {
 			w.predecessorRefuses(id, false)
 		}
+	}
+}
+
+// c13StaleUpdater: a ContractUpdater of a v1 contract is opened while the contract is revisable,
+// the renewal of the contract is accepted, and only then is the updater committed.  The
+// predecessor must refuse that revision (C13: "refuses further revisions") and stay as the
+// renewal left it — for an empty and for a non-empty contract.
+func (w *vrWorld) c13StaleUpdater() {
+	w.setup(2, 0, 0)
+	for k, tip := range []types.FileContractID{w.order1[0], w.order1[1]} {
+		if k == 1 {
+			w.reviseTip1(tip, 3, true)
+		}
+		if !w.lock1(tip) {
+			w.hit("live-contract-refuses-lock", fmt.Sprintf("contract %d", w.cN(tip)))
+			return
+		}
+		u := w.open1(tip)
+		if u < 0 {
+			w.hit("live-contract-refuses-revision", fmt.Sprintf("contract %d: ReviseContract refused", w.cN(tip)))
+			w.unlock1(tip)
+			return
+		}
+		w.act(u, contracts.SectorChange{Action: contracts.SectorActionAppend, Root: w.roots[0]})
+		if _, ok := w.renew1(tip, vrRenewOK, -1); !ok {
+			w.hit("live-contract-refuses-renewal", fmt.Sprintf("contract %d", w.cN(tip)))
+			w.close1(u)
+			w.unlock1(tip)
+			return
+		}
+		if ok, _ := w.commit1(u, -1); ok {
+			w.hit("predecessor-accepted-revision-after-renewal", fmt.Sprintf("contract %d: an updater opened before the renewal was committed after it", w.cN(tip)))
+		}
+		w.close1(u)
+		w.unlock1(tip)
+		w.predecessorRefuses(tip, false)
 	}
 }
 
